@@ -93,8 +93,8 @@ def slug(s):
 
 HIST_TIERS = {
     # runs, chunk, time budget (s), determinism re-check sample
-    "quick": dict(runs=20000, chunk=250, secs=240, recheck=200),
-    "thorough": dict(runs=3000000, chunk=2000, secs=600, recheck=5000),
+    "quick": dict(runs=20000, chunk=250, secs=240, recheck=200, max_ops=40),
+    "thorough": dict(runs=3000000, chunk=2000, secs=600, recheck=5000, max_ops=100),
 }
 
 
@@ -108,6 +108,58 @@ def run_chunk(binary, args, out, inflight):
     except subprocess.TimeoutExpired:
         return "timeout after %ds" % CHUNK_TIMEOUT_S, ""
     return r.returncode, r.stdout
+
+
+def hash_args(tier):
+    """Which runs of a chunk report their event-log hash: all of them (quick) or the first 25."""
+    return ["--hash-every", "1"] if tier == "quick" else ["--hash-first", "25"]
+
+
+def recheck_determinism(binary, base_args, seed, hashes, tier, cfg, work, workers, with_inflight):
+    """Re-execute a sample of run indices in other processes, with range boundaries that differ from
+    the main pass, and compare the address-free event-log hashes."""
+    det = dict(rechecked=0, mismatches=0)
+    if not hashes:
+        return det
+    idxs = sorted(hashes)
+    if tier == "quick":
+        # two contiguous blocks straddling chunk boundaries of the main pass
+        n = cfg["recheck"] // 2
+        blocks = [(idxs[0], n), (idxs[len(idxs) // 2] + cfg["chunk"] // 2, n)]
+    else:
+        # the first 25 runs of each chunk were hashed: revisit a sample of chunks, starting 10 runs early
+        starts = sorted(set(i for i in idxs if i % cfg["chunk"] == 0))
+        want = max(1, cfg["recheck"] // 25)
+        stride = max(1, len(starts) // want)
+        blocks = [(max(0, s0 - 10), 35 if s0 >= 10 else 25) for s0 in starts[::stride][:want]]
+
+    def one(b):
+        s0, n = b
+        out = os.path.join(work, "recheck-%d.json" % s0)
+        args = ["run"] + base_args + ["--seed", str(seed), "--start", str(s0), "--count", str(n), "--hash-every", "1", "--max-violations", "1000000"]
+        if with_inflight:
+            rc, _ = run_chunk(binary, args, out, os.path.join(work, "inflight-recheck-%d" % s0))
+        else:
+            import xadd_driver
+            rc, _ = xadd_driver.run_chunk(binary, args, out)
+        if rc != 0 or not os.path.exists(out):
+            return []
+        try:
+            with open(out) as f:
+                d = json.load(f)
+        except ValueError:
+            return []
+        return d["hashes"]
+
+    with ThreadPoolExecutor(max_workers=workers) as ex:
+        for hs in ex.map(one, blocks):
+            for i, h in hs:
+                i = int(i)
+                if i in hashes:
+                    det["rechecked"] += 1
+                    if hashes[i] != h:
+                        det["mismatches"] += 1
+    return det
 
 
 def read_marker(path):
@@ -143,7 +195,6 @@ def hist_check(prop, tier, seed, runs, workers, secs):
         n = min(cfg["chunk"], cfg["runs"] - i)
         chunks.append((i, n))
         i += n
-    hash_every = 1 if tier == "quick" else 50
     deadline = t_start + cfg["secs"]
     results = []
     crashes = []
@@ -157,7 +208,7 @@ def hist_check(prop, tier, seed, runs, workers, secs):
             return None
         out = os.path.join(work, "chunk-%d.json" % start)
         infl = os.path.join(work, "inflight-%d" % start)
-        args = ["run", "--prop", prop, "--seed", str(seed), "--start", str(start), "--count", str(n), "--hash-every", str(hash_every)]
+        args = ["run", "--prop", prop, "--seed", str(seed), "--start", str(start), "--count", str(n), "--max-ops", str(cfg["max_ops"])] + hash_args(tier)
         rc, text = run_chunk(binary, args, out, infl)
         if rc != 0 or not os.path.exists(out):
             crashes.append(dict(start=start, count=n, rc=rc, marker=read_marker(infl), output=text[-2000:]))
@@ -209,28 +260,7 @@ def hist_check(prop, tier, seed, runs, workers, secs):
             samples.extend(d["samples"][: 3 - len(samples)])
 
     # ---- determinism self-check: a sample of run indices again, in one other process ------------
-    det = dict(rechecked=0, mismatches=0)
-    if hashes:
-        idxs = sorted(hashes)
-        step = hash_every
-        block = max(step, (cfg["recheck"] // 2) * step)
-        # two contiguous blocks whose boundaries differ from the chunking of the main pass
-        starts = [idxs[0], idxs[len(idxs) // 2] + (cfg["chunk"] // 2 // step) * step]
-        for s0 in starts:
-            s0 -= s0 % step
-            out = os.path.join(work, "recheck-%d.json" % s0)
-            args = ["run", "--prop", prop, "--seed", str(seed), "--start", str(s0), "--count", str(block), "--hash-every", str(step), "--max-violations", "1000000"]
-            rc, text = run_chunk(binary, args, out, os.path.join(work, "inflight-recheck"))
-            if rc != 0 or not os.path.exists(out):
-                continue
-            with open(out) as f:
-                d = json.load(f)
-            for i, h in d["hashes"]:
-                i = int(i)
-                if i in hashes:
-                    det["rechecked"] += 1
-                    if hashes[i] != h:
-                        det["mismatches"] += 1
+    det = recheck_determinism(binary, ["--prop", prop, "--max-ops", str(cfg["max_ops"])], seed, hashes, tier, cfg, work, workers, with_inflight=True)
     det_failed = det["mismatches"] > 0
 
     # ---- violations -------------------------------------------------------------------------------
@@ -267,7 +297,7 @@ def hist_check(prop, tier, seed, runs, workers, secs):
             # is it a C10 matter (e.g. stale compiled code trampling the heap)? Ask the C10 oracle
             # about the very same scenario, in a process of its own.
             probe_out = os.path.join(work, "crash-probe-%d.json" % m["index"])
-            rc, _ = run_chunk(binary, ["run", "--prop", "C10", "--gen", "C09", "--seed", str(seed), "--start", str(m["index"]), "--count", "1"], probe_out, os.path.join(work, "inflight-crash-probe"))
+            rc, _ = run_chunk(binary, ["run", "--prop", "C10", "--gen", "C09", "--seed", str(seed), "--start", str(m["index"]), "--count", "1", "--max-ops", str(cfg["max_ops"])], probe_out, os.path.join(work, "inflight-crash-probe"))
             c10_says = False
             try:
                 with open(probe_out) as f:
@@ -280,7 +310,7 @@ def hist_check(prop, tier, seed, runs, workers, secs):
             attributable = True
         if attributable:
             idx = m["index"]
-            r = subprocess.run([binary, "show", "--prop", prop, "--seed", str(seed), "--index", str(idx), "--json-only", "--truncate", str(m["op"] + 1)], stdout=subprocess.PIPE, stderr=subprocess.PIPE, text=True)
+            r = subprocess.run([binary, "show", "--prop", prop, "--seed", str(seed), "--index", str(idx), "--json-only", "--truncate", str(m["op"] + 1), "--max-ops", str(cfg["max_ops"])], stdout=subprocess.PIPE, stderr=subprocess.PIPE, text=True)
             path = os.path.join(REPLAYS, "%s-%s-%s-process-killed.json" % (prop, seed, idx))
             try:
                 rep = json.loads(r.stdout)
